@@ -68,7 +68,7 @@ def rotation(env, lo=1e-12, hi=3.1415916):
     u = env.unitvec('u', 3)
     phi = env.real('phi', lo, hi)
     c, s_ = env.math.cos(phi), env.math.sin(phi)
-    env.assume(s_ >= 0)                      # sin phi >= 0 on [0, pi]
+    env.assume(s_ >= 1e-13)                  # sin phi > 0 on [1e-12, pi - 1e-6]
     return u, phi, c, s_, A.rodrigues(np, u, c, s_)
 
 
@@ -156,7 +156,7 @@ def class_wrappers_of_exp_and_log(env, cfg, ck):
     u = env.unitvec('u', 3)
     phi = env.real('phi', 1e-6, 3.0)
     c, s_ = env.math.cos(phi), env.math.sin(phi)
-    env.assume(s_ >= 0)
+    env.assume(s_ >= 1e-13)
     R = A.rodrigues(np, u, c, s_)
     if cfg['cls'] == 'SO3':
         X = sm.SO3(R, check=False)
